@@ -204,7 +204,18 @@ private:
       }
     }
     //evaluate in place
-    proxy.compute(detail::vector_wrapper<WrapperType>{dim,components});
+    try{
+      proxy.compute(detail::vector_wrapper<WrapperType>{dim,components});
+    }catch(...){
+      //(a user supplied element-wise operation may throw.) This vector already owns the
+      //storage it took from the operand, so the operand must let go of it now
+      if(robbed){
+        robbed->dim=0;
+        robbed->size=0;
+        robbed->components=nullptr;
+      }
+      throw;
+    }
     if(robbed){ //the operand has been read; it must not keep referring to storage it no longer owns
       robbed->dim=0;
       robbed->size=0;
